@@ -36,6 +36,15 @@ default rel
 %define SELF_TEST_NOT_DONE      0x2
 %define SELF_TEST_RUNNING       0x3
 
+%ifdef ISAL_CRYPTO_VERIF
+; Verification hook (off by default): cooperative scheduling point before each
+; access to self_test_status; the stub preserves all registers and flags.
+extern isal_verif_sched_point
+%define VERIF_SCHED_POINT call isal_verif_sched_point
+%else
+%define VERIF_SCHED_POINT
+%endif
+
 section .data
 align 16
 
@@ -60,6 +69,7 @@ section .text
 align 32
 mk_global asm_check_self_tests_status, function
 asm_check_self_tests_status:
+        VERIF_SCHED_POINT
         mov     eax, [self_test_status]
         ; Check if self tests are done (SELF_TEST_DONE_AND_OK or SELF_TEST_DONE_AND_FAIL, so 0 or 1)
         test    eax, 0x2
@@ -75,16 +85,19 @@ check_self_test_not_done:
         mov     edx, SELF_TEST_RUNNING
         ; If self tests status == SELF_TEST_NOT_DONE (in eax),
         ; change self tests status = SELF_TEST_RUNNING
+        VERIF_SCHED_POINT
         lock cmpxchg dword [self_test_status], edx
         jz      return
 
         ; At this stage, some other thread has started running the tests, so loop until it changes
 check_status_loop:
         pause
+        VERIF_SCHED_POINT
         cmp     dword [self_test_status], SELF_TEST_RUNNING
         je      check_status_loop
 
         ; Read value set by the other thread and return it
+        VERIF_SCHED_POINT
         mov     eax, [self_test_status]
 return:
         ret
@@ -94,5 +107,6 @@ align 32
 mk_global asm_set_self_tests_status, function
 asm_set_self_tests_status:
         ; Set self tests status
+        VERIF_SCHED_POINT
         mov     dword [self_test_status], arg1 ; Either 0 (SELF_TEST_DONE_AND_OK) or 1 (SELF_TEST_DONE_AND_FAIL)
         ret
